@@ -926,7 +926,7 @@ func (r rbcEncoding) Ack() (digest []byte, sender uint16, msgRound uint8, err er
 	// RBCMessage round is the first byte, a uint7
 	msgRound = r[0]
 	// The next two bytes are the sender
-	sender = uint16(r[1]<<8) + uint16(r[2])
+	sender = uint16(r[1])<<8 + uint16(r[2])
 	// The remaining bytes are the digest
 	digest = r[3:]
 	return
